@@ -221,6 +221,23 @@ def _scenarios() -> list[Scn]:
             vals = [int(v) for v in vals]
             okf = eq
         S.append(Scn(f"numeric_value({vt})", lambda x, vt=vt: D.NumericValue(x, "d", group_address="1/7/1", value_type=vt), lambda d, v: d.set(v), lambda d: d.resolve_state(), vals, okf))
+    # structured values in their dict (JSON) form - what Home Assistant services and the MCP tools hand over; zero is a valid channel value
+    from xknx.dpt.dpt_232 import RGBColor
+    from xknx.dpt.dpt_251 import RGBWColor
+
+    rgbw_d = [({"red": r, "green": g, "blue": b, "white": wv}, RGBWColor(r, g, b, wv)) for r, g, b, wv in ((255, 0, 0, 0), (0, 0, 0, 0), (1, 2, 3, 4), (0, 255, 0, 255), (255, 255, 255, 0))]
+    rgb_d = [({"red": r, "green": g, "blue": b}, RGBColor(r, g, b)) for r, g, b in ((255, 0, 0), (0, 0, 0), (1, 2, 3), (0, 0, 255))]
+    xyy_d = [({"x_axis": x, "y_axis": y, "brightness": br}, XYYColor((x, y), br)) for x, y, br in ((0.0, 0.0, 0), (0.5, 0.25, 255), (1.0, 0.0, 1), (0.0, 1.0, 0))]
+    for vt, pairs in (("color_rgbw", rgbw_d), ("color_rgb", rgb_d), ("color_xyy", xyy_d)):
+        vals = [i for i in range(len(pairs))]
+
+        def okd(q: int, r: Any, pairs: Any = pairs, vt: str = vt) -> bool:
+            want = pairs[q][1]
+            if vt == "color_xyy":
+                return r is not None and r.brightness == want.brightness and r.color is not None and all(abs(a - b) <= 1 / 65535 + 1e-9 for a, b in zip(r.color, want.color))
+            return r == want
+
+        S.append(Scn(f"expose_sensor({vt},dict)", lambda x, vt=vt: D.ExposeSensor(x, "d", group_address="1/7/8", value_type=vt), lambda d, i, pairs=pairs: d.set(pairs[i][0]), lambda d: d.resolve_state(), vals, okd, pairs=True))
     S.append(Scn("expose_sensor(binary)", lambda x: D.ExposeSensor(x, "d", group_address="1/7/2", value_type="binary"), lambda d, v: d.set(v), lambda d: d.resolve_state(), B, eq, pairs=True))
     S.append(Scn("expose_sensor(string)", lambda x: D.ExposeSensor(x, "d", group_address="1/7/2", value_type="string"), lambda d, v: d.set(v), lambda d: d.resolve_state(), ["", "a", "Hello World!!!", "14 characters."], eq))
     for n, vals in ((0, [0, 1, 63]), (1, [0, 1, 255]), (2, [0, 256, 65535]), (4, [0, 1, 2**32 - 1])):
@@ -372,7 +389,7 @@ def run(ctx: Ctx) -> None:
     ctx.rule = (
         f"{len(scns)} loop-back scenarios over every device class with a setter (switch, light: switch/brightness/rgb/rgbw/individual colours/hs/xyY/tunable white/colour temperature, cover: position/angle/up-down "
         "plain and inverted, fan: percent/step/oscillation/switch, climate: target temperature, on/off plain and inverted, fan speed, swing, setpoint shift in both modes x steps 0.1/0.2/0.5/1/0.25/0.05 directly and through "
-        "set_target_temperature on a 0.1 K grid, climate mode: byte and binary operation modes, controller mode, heat/cool, numeric value and expose sensor over 17 value types, raw value, notification, date/time): "
+        "set_target_temperature on a 0.1 K grid, climate mode: byte and binary operation modes, controller mode, heat/cool, numeric value and expose sensor over 17 value types, raw value, notification, date/time, expose sensor with colour values in dict form): "
         "real XKNX on the virtual loop, the command's telegrams pass the real queue, the fake interface, and are processed as outgoing by the device. EVERY value of each setter's alphabet (all 0..255 / 0..100 for "
         "scaled values) as a single command, as second command after the extreme values, and all pairs (triples for <=5 values) for state-carrying setters. Oracle: reported state = requested, or a nearest value of the "
         "datapoint's decode image (exact arithmetic on the image). Every single command (thorough: every case) is run a second time with xknx.group_address_dpt filled as a project import would "
